@@ -219,7 +219,7 @@ PROPS['C18']['engines'] = [dict(module='gvc.engine', args=dict(analyses=('pptota
 PROPS['C05']['engines'] = [dict(module='vx.boundeng'), dict(module='gvc.engine', args=dict(analyses=('shadow', 'kwsites', 'assumed')))]
 PROPS['C11']['engines'] = [dict(module='gvc.engine', args=dict(analyses=('shadow', 'kwsites', 'assumed')))]
 PROPS['C10']['engines'] = [dict(module='gvc.engine', args=dict(analyses=('assumed',)))]
-PROPS['C04']['engines'] = [dict(module='gvc.engine', args=dict(analyses=('frame', 'assumed'))), REPLAY]
+PROPS['C04']['engines'] = [dict(module='gvc.engine', args=dict(analyses=('frame', 'assumed', 'kwsites'))), REPLAY]
 PROPS['C06']['engines'] = [dict(module='gvc.engine', args=dict(analyses=('pptotal', 'faithful', 'shadow', 'assumed'))), dict(module='vx.boundeng'), REPLAY]
 
 NOT_APPLICABLE = {
